@@ -42,7 +42,7 @@ func driveMG(p *Plan, shard int, w *Writer, t *codec.Table) {
 		if rr.St == "ok" {
 			var back jd.Diff
 			rb := drive.Guard(func() drive.Res {
-				x, err := jd.ReadMergeString(text)
+				x, err := drive.ReadMergeAny(text)
 				if err != nil {
 					return drive.Res{St: "err", Msg: err.Error()}
 				}
@@ -77,7 +77,7 @@ func driveMP(p *Plan, shard int, w *Writer, t *codec.Table) {
 			w.Emit(shard, Rec{"sess": id, "op": "MpBegin", "p": pd, "raw": text})
 			var d jd.Diff
 			rr := drive.Guard(func() drive.Res {
-				x, err := jd.ReadMergeString(text)
+				x, err := drive.ReadMergeAny(text)
 				if err != nil {
 					return drive.Res{St: "err", Msg: err.Error()}
 				}
@@ -90,7 +90,7 @@ func driveMP(p *Plan, shard int, w *Writer, t *codec.Table) {
 					if !keep(p.Seed, it.Frac, "mp", pi, ti) {
 						continue
 					}
-					x, err := jd.ReadMergeString(text)
+					x, err := drive.ReadMergeAny(text)
 					if err != nil {
 						break
 					}
